@@ -2,6 +2,7 @@
 //! prints one canonical result line per case.  No oracle logic lives here.
 mod l_codec;
 mod l_prog;
+mod l_sched;
 
 use std::io::{BufRead, Write};
 
@@ -21,6 +22,7 @@ fn main() {
         let res = match layer.as_str() {
             "codec" => l_codec::run(&words),
             "prog" => l_prog::run(&words),
+            "sched" => l_sched::run(&words),
             _ => {
                 eprintln!("usage: vharness <codec>");
                 std::process::exit(2);
